@@ -123,42 +123,37 @@ def WSys.putA (y : WSys) (w : Ws) (v : WView) : WSys :=
 def WSys.putB (y : WSys) (w : Ws) (v : WView) : WSys :=
   { y with b := w, tb := (v.tbuf, v.cw, v.cf), ba := v.tx, ab := v.rx }
 
-/-- what one side does in a step -/
-inductive WJob where
-  | send (f : Frame) (queued : Bool) (thenRead : Option Frame)   -- send, then (ping / close) read and expect
-  | read (want : Frame)
-  | done (ok : Bool)
+/-- what one side does in a step: a script of sends and expected reads, run in order -/
+inductive Act where
+  | send (f : Frame) (queued : Bool)
+  | expect (want : Frame)
   deriving Repr
 
-/-- poll one side once -/
-def pollJob (sc : WSched) (w : Ws) (v : WView) (j : WJob) : Ws × WView × WJob :=
-  match j with
-  | .done ok => (w, v, .done ok)
-  | .send f queued thenRead =>
-    match pollSend sc w v f queued with
-    | (w, v, q, .pending _) => (w, v, .send f q thenRead)
-    | (w, v, _, .ready ()) =>
-      match thenRead with
-      | none => (w, v, .done true)
-      | some want =>
-        match pollNext sc w v with
-        | (w, v, .pending _) => (w, v, .read want)
-        | (w, v, .ready got) => (w, v, .done (got == want))
-  | .read want =>
-    match pollNext sc w v with
-    | (w, v, .pending _) => (w, v, .read want)
-    | (w, v, .ready got) => (w, v, .done (got == want))
+/-- poll one side once: run its script until a `Pending` or the end; `ok` turns false on a wrong message -/
+def pollScript (sc : WSched) : Nat → Ws → WView → List Act → Bool → Ws × WView × List Act × Bool
+  | 0, w, v, acts, ok => (w, v, acts, ok)
+  | fuel + 1, w, v, acts, ok =>
+    match acts with
+    | [] => (w, v, [], ok)
+    | .send f queued :: rest =>
+      match pollSend sc w v f queued with
+      | (w, v, q, .pending _) => (w, v, .send f q :: rest, ok)
+      | (w, v, _, .ready ()) => pollScript sc fuel w v rest ok
+    | .expect want :: rest =>
+      match pollNext sc w v with
+      | (w, v, .pending _) => (w, v, .expect want :: rest, ok)
+      | (w, v, .ready got) => pollScript sc fuel w v rest (ok && got == want)
 
-def runStep : Nat → WSys → WJob → WJob → WSys × Option (Bool × Bool)
+def runStep : Nat → WSys → List Act × Bool → List Act × Bool → WSys × Option (Bool × Bool)
   | 0, y, _, _ => (y, none)
-  | fuel + 1, y, ja, jb =>
+  | fuel + 1, y, (ja, oka), (jb, okb) =>
     match ja, jb with
-    | .done x, .done z => (y, some (x, z))
+    | [], [] => (y, some (oka, okb))
     | _, _ =>
-      let (wa, va, ja) := pollJob y.sc y.a y.viewA ja
+      let (wa, va, ja, oka) := pollScript y.sc (ja.length + 1) y.a y.viewA ja oka
       let y := y.putA wa va
-      let (wb, vb, jb) := pollJob y.sc y.b y.viewB jb
-      runStep fuel (y.putB wb vb) ja jb
+      let (wb, vb, jb, okb) := pollScript y.sc (jb.length + 1) y.b y.viewB jb okb
+      runStep fuel (y.putB wb vb) (ja, oka) (jb, okb)
 
 def wsBody (kind : String) (len seed : Nat) : List UInt8 :=
   let p := payload len seed
@@ -167,6 +162,13 @@ def wsBody (kind : String) (len seed : Nat) : List UInt8 :=
 def kindOf (s : String) : Option Kind :=
   if s = "text" then some .text else if s = "bin" then some .bin else if s = "ping" then some .ping else none
 
+/-- `burst_kind` of the harness -/
+def burstKind (seed i : Nat) : String := if (seed + i) % 4 = 3 then "text" else "ping"
+
+def burstFrame (len seed i : Nat) : Frame :=
+  let k := burstKind seed i
+  ⟨if k = "text" then .text else .ping, wsBody k len (seed + i)⟩
+
 def runWsSteps (y : WSys) (bad : Bool) : List String → List String
   | [] => []
   | l :: rest =>
@@ -174,27 +176,37 @@ def runWsSteps (y : WSys) (bad : Bool) : List String → List String
     let word := (ws.head?).getD "?"
     if bad then s!"{word} skip" :: runWsSteps y true rest
     else
-      let jobs : Option (WJob × WJob × String) :=
+      let jobs : Option (List Act × List Act × String) :=
         match ws with
         | ["msg", dir, kind, len, seed] =>
           match kindOf kind, len.toNat?, seed.toNat? with
           | some k, some len, some seed =>
             let f : Frame := ⟨k, wsBody kind len seed⟩
-            let snd := WJob.send f false (if k = .ping then some ⟨.pong, f.data⟩ else none)
-            let rcv := WJob.read f
+            let snd := [Act.send f false] ++ (if k = .ping then [Act.expect ⟨.pong, f.data⟩] else [])
+            let rcv := [Act.expect f]
             if dir = "c2s" then some (snd, rcv, s!"msg ok {kind} {len}")
             else if dir = "s2c" then some (rcv, snd, s!"msg ok {kind} {len}") else none
           | _, _, _ => none
+        | ["burst", dir, count, len, seed] =>
+          match count.toNat?, len.toNat?, seed.toNat? with
+          | some count, some len, some seed =>
+            let fs := (List.range count).map (burstFrame len seed)
+            let snd := fs.map (Act.send · false) ++
+              (fs.filter (·.kind == .ping)).map fun f => Act.expect ⟨.pong, f.data⟩
+            let rcv := fs.map Act.expect
+            if dir = "c2s" then some (snd, rcv, s!"burst ok {count}")
+            else if dir = "s2c" then some (rcv, snd, s!"burst ok {count}") else none
+          | _, _, _ => none
         | ["wsclose", who] =>
           let f : Frame := ⟨.close, []⟩
-          let ini := WJob.send f false (some f)
-          let rsp := WJob.read f
+          let ini := [Act.send f false, Act.expect f]
+          let rsp := [Act.expect f]
           if who = "c" then some (ini, rsp, "wsclose ok") else if who = "s" then some (rsp, ini, "wsclose ok") else none
         | _ => none
       match jobs with
       | none => "bad-op" :: runWsSteps y true rest
       | some (ja, jb, okLine) =>
-        match runStep 64 y ja jb with
+        match runStep (64 + 16 * (ja.length + jb.length)) y (ja, true) (jb, true) with
         | (y, some (true, true)) => okLine :: runWsSteps y false rest
         | (y, some _) => s!"{word} mismatch" :: runWsSteps y true rest
         | (y, none) => s!"{word} stuck" :: runWsSteps y true rest
@@ -205,7 +217,10 @@ def runWs (lines : List String) : List String :=
   | l0 :: rest =>
     match kv (words l0) "tls" with
     | some tls =>
-      let sc : WSched := { buffering := tls != "none", dw := 0, df := 0 }
+      -- a back-pressured endpoint (`sb`): the writes of the stream pend (here: once each), so that the flush
+      -- `poll_next` performs before yielding returns `Pending` with the item parked
+      let sb := (kv (words l0) "sb").getD "none"
+      let sc : WSched := { buffering := tls != "none", dw := if sb = "none" then 0 else 1, df := 0 }
       "ws ok" :: runWsSteps ⟨sc, Ws.new, Ws.new, ([], 0, 0), ([], 0, 0), [], []⟩ false rest
     | none => lines.map fun _ => "bad-op"
 
